@@ -538,6 +538,9 @@ func (v *V) evalSpecBuiltin(e *Env, name string, call *ast.CallExpr) (Val, bool)
 			}
 		}
 		return boolVal(and(conj...)), true
+	case "visited":
+		k := e.eval(args[0])
+		return boolVal(v.visitedKey(e, k)), true
 	case "offset":
 		a := e.eval(args[0])
 		return Val{T: tInt, S: "(sl_off " + a.S + ")"}, true
@@ -971,6 +974,21 @@ func (v *V) knownExternal(e *Env, fn *types.Func, recv *Val, call *ast.CallExpr)
 		r := and(eq(la, lb), fmt.Sprintf("(forall ((%s %s)) (=> %s %s))", qn, v.d.idxSort(), and(v.ile(v.d.idxLit(0), qn), v.ilt(qn, la)),
 			eq(v.sliceElem(e, a, qn).S, v.sliceElem(e, b, qn).S)))
 		c := v.d.fresh("beq", "Bool")
+		e.st.define(eq(c, r))
+		return []Val{boolVal(c)}, true
+	case "bytes.HasPrefix":
+		a, b := arg(0), arg(1)
+		a, b = v.nameVal(e, a, "a"), v.nameVal(e, b, "b")
+		qn := fmt.Sprintf("k_qi%d", v.nextQ())
+		v.d.usesQuant = true
+		_, _, la, _ := v.sliceParts(a.S)
+		_, _, lb, _ := v.sliceParts(b.S)
+		r := and(v.ile(lb, la), fmt.Sprintf("(forall ((%s %s)) (=> %s %s))", qn, v.d.idxSort(), and(v.ile(v.d.idxLit(0), qn), v.ilt(qn, lb)),
+			eq(v.sliceElem(e, a, qn).S, v.sliceElem(e, b, qn).S)))
+		if e.inQuant > 0 || e.spec {
+			return []Val{boolVal(r)}, true
+		}
+		c := v.d.fresh("hasprefix", "Bool")
 		e.st.define(eq(c, r))
 		return []Val{boolVal(c)}, true
 	case "bytes.Compare":
